@@ -1,1 +1,1 @@
-
+import NjectGen.Registry
